@@ -118,6 +118,20 @@ Theorem C01_count_cell_exact :
 Proof. exact count_cell_exact. Qed.
 Print Assumptions C01_count_cell_exact.
 
+(* 7. separation weighting: for EVERY list of bin weights (the code uses alpha_k / sum alpha at the
+      logarithmic centres of the fine bins), both dispatch modes: the slice of the weighted fine-bin
+      counts between the grid edges lo and hi is the sum over the pairs in (lo, hi] of
+      w * (weight of the fine bin containing the pair) *)
+Theorem C01_weighted_dispatch_exact : forall cum prev p1 r1 r2 an ps,
+  ascending (prev :: p1 ++ r1 ++ r2) -> r1 <> [] ->
+  let grid := prev :: p1 ++ r1 ++ r2 in
+  let lo := last p1 prev in let hi := last r1 lo in
+  slice_sum (zipmul (dispatch cum (if cum then cn_cum grid ps else cn_bin grid ps)) an)
+            (length p1) (length p1 + length r1)
+  == qsum (map (fun p => if in_range lo hi (fst p) then snd p * fine_weight grid an (fst p) else 0) ps).
+Proof. exact weighted_dispatch_exact. Qed.
+Print Assumptions C01_weighted_dispatch_exact.
+
 (* non-vacuity: a 9-edge grid (per-bin branch) and a 3-edge grid (cumulative branch) on four
    pairs: the slice over edges 1..2 is the weight in (r_1, r_2] *)
 Example C01_concrete :
